@@ -131,6 +131,8 @@ def broadcast(s1, s2):
     for a, b in zip(s1, s2):
         if a is None or b is None:
             out.append(a if b is None else b)
+        elif isinstance(a, AltDim) or isinstance(b, AltDim):
+            out.append(a if isinstance(a, AltDim) else b)
         elif a == b:
             out.append(a)
         elif a == Poly.const(1):
@@ -142,12 +144,34 @@ def broadcast(s1, s2):
     return tuple(out)
 
 
+class AltDim(frozenset):
+    """a dimension that differs between control-flow paths (set of the alternative polynomials)"""
+
+    def __str__(self):
+        return " | ".join(sorted(str(x) for x in self))
+
+    __repr__ = __str__
+
+
+def same_dim(a, b):
+    return isinstance(a, Poly) and isinstance(b, Poly) and a == b
+
+
+def _jdim(x, y):
+    if x is None or y is None:
+        return None
+    xs = x if isinstance(x, AltDim) else AltDim([x])
+    ys = y if isinstance(y, AltDim) else AltDim([y])
+    u = AltDim(xs | ys)
+    return next(iter(u)) if len(u) == 1 else u
+
+
 def join_shape(a, b):
     if a is None or b is None:
         return None
     if len(a) != len(b):
         return None
-    return tuple(x if (x is not None and y is not None and x == y) else None for x, y in zip(a, b))
+    return tuple(_jdim(x, y) for x, y in zip(a, b))
 
 
 def join_av(a, b, label_a="", label_b=""):
@@ -463,7 +487,8 @@ class Interp:
                 self.event(st, "mixed-degree", (m.verts.deg, rhs.deg))
             rows = None
             if m.verts.shape and rhs.shape and m.verts.shape[0] is not None and rhs.shape[0] is not None:
-                rows = m.verts.shape[0] + rhs.shape[0]
+                a0, b0 = m.verts.shape[0], rhs.shape[0]
+                rows = (a0 + b0) if isinstance(a0, Poly) and isinstance(b0, Poly) else (b0 if isinstance(a0, Poly) and a0.is_zero() else None)
             nv.shape = (rows,)
             env[root] = m.copy(verts=nv)
 
@@ -805,8 +830,7 @@ class Interp:
 
 
 def _load(t):
-    import copy
-    t2 = copy.deepcopy(t)
+    t2 = ast.parse(ast.unparse(t), mode="eval").body   # parent-free copy
     for n in ast.walk(t2):
         if hasattr(n, "ctx"):
             n.ctx = ast.Load()
